@@ -127,6 +127,13 @@ theorem C10_fail_absorbing (c : RtCtx) (σ : CState) (h : c.M.failLike σ.state)
     simp [RtCtx.feedL, call_failLike c.M c.semOpts σ.state b h, RtCtx.runTree]
   · simp [RtCtx.endCall, call_failLike c.M c.semOpts σ.state symEnd h, RtCtx.runTree]
 
+/-- … and an empty chunk, where the feed function answers before looking at any byte, is answered
+    FAIL too once the parser has failed (and OK otherwise, changing nothing). -/
+theorem C10_fail_absorbing_empty_chunk (c : RtCtx) (σ : CState) (chunk : List Nat) (pos : Nat)
+    (hchk : c.needsEndCheck = true) (hempty : chunk.drop pos = []) :
+    c.feed σ chunk pos = (σ, if c.M.isFailState σ.state then "FAIL" else "OK", pos) := by
+  simp [RtCtx.feed, hchk, hempty]
+
 /-- **Yield resumption is exact**: cutting the input anywhere and running the two parts one after
     the other gives the session of the whole — the re-invocations after yields included. -/
 theorem C10_yield_resume_exact (c : RtCtx) (fuel : Nat) (σ : CState) (c1 c2 : List Nat) (off : Nat) :
